@@ -884,7 +884,7 @@ pub fn c06() -> CheckDef {
         real_code: REAL_A,
         stubs: STUB_A,
         assumptions: vec![
-            "receiver memory is measured by the harness allocator (requested bytes allocated inside calls into the victim, minus its fresh-connection baseline, its acknowledgement queue capacity and its own send buffer); bookkeeping budget 128 bytes per window slot + limit/64",
+            "receiver memory is measured by the harness allocator (requested bytes allocated inside calls into the victim, minus its fresh-connection baseline, its acknowledgement queue capacity and its own send buffer); bookkeeping budget 4096 bytes + 128 bytes per receive-window slot + limit/64",
             "the acknowledgement queue bound is 65536 groups: deliberately generous so that any fixed cap passes",
         ],
     }
